@@ -57,11 +57,13 @@ def grid(rng):
     """The fixed part of the instance grid: every value of every axis at least once."""
     rows = [
         dict(bus="wishbone", bus_dw=32, ic="shared", csr_dw=32, paging=0x800, ordering="big", csr_aw=14, csr_origin=0, big_prob=1.0),
-        dict(bus="wishbone", bus_dw=32, ic="crossbar", csr_dw=32, paging=0x400, ordering="big", csr_aw=15, csr_origin=0xf0000000),
+        dict(bus="wishbone", bus_dw=32, ic="crossbar", csr_dw=32, paging=0x400, ordering="big", csr_aw=15, csr_origin=0xf0000000,
+             mem_prob=1.0, shadow_prob=1.0),
         dict(bus="wishbone", bus_dw=64, ic="shared", csr_dw=32, paging=0x1000, ordering="big", csr_aw=14, csr_origin=0x82000000),
         dict(bus="wishbone", bus_dw=64, ic="crossbar", csr_dw=32, paging=0x800, ordering="big", csr_aw=16, bus_aw=64,
              csr_origin=0x200000000),
-        dict(bus="axi-lite", bus_dw=32, ic="shared", csr_dw=32, paging=0x800, ordering="big", csr_aw=14),
+        dict(bus="axi-lite", bus_dw=32, ic="shared", csr_dw=32, paging=0x800, ordering="big", csr_aw=14, csr_origin=0x82000000,
+             mem_prob=0.7, shadow_prob=1.0),
         dict(bus="axi-lite", bus_dw=32, ic="crossbar", csr_dw=32, paging=0x1000, ordering="big", csr_aw=15),
         dict(bus="axi", bus_dw=32, ic="shared", csr_dw=32, paging=0x400, ordering="big", csr_aw=14, max_regs=3),
         dict(bus="wishbone", bus_dw=32, ic="shared", csr_dw=8, paging=0x800, ordering="big", csr_aw=14),
@@ -76,7 +78,8 @@ def grid(rng):
         mr = row.pop("max_regs", 6)
         cfg = L.gen_cfg(rng, max_regs=mr, **row)
         cfg.pop("max_regs", None)
-        cfg.pop("big_prob", None)
+        for k_ in ("big_prob", "mem_prob", "shadow_prob"):
+            cfg.pop(k_, None)
         out.append(cfg)
     return out
 
